@@ -617,10 +617,12 @@ func (n *NSQD) channels() []*Channel {
 //	1 <= pool <= min(num * 0.25, QueueScanWorkerPoolMax)
 func (n *NSQD) resizePool(num int, workCh chan *Channel, responseCh chan bool, closeCh chan int) {
 	idealPoolSize := int(float64(num) * 0.25)
-	if idealPoolSize < 1 {
-		idealPoolSize = 1
-	} else if idealPoolSize > n.getOpts().QueueScanWorkerPoolMax {
+	if idealPoolSize > n.getOpts().QueueScanWorkerPoolMax {
 		idealPoolSize = n.getOpts().QueueScanWorkerPoolMax
+	}
+	if idealPoolSize < 1 {
+		// never below one worker, whatever --queue-scan-worker-pool-max says
+		idealPoolSize = 1
 	}
 	for {
 		if idealPoolSize == n.poolSize {
